@@ -22,7 +22,13 @@ CONSTANTS P, Max,     \* prefetch window and MaxRequestBodySize, in units
           DrainMax    \* what the loop is willing to discard after the handler (256 KiB = 64 units)
 
 Sizes == {0, 1, 3, 5, 80}             \* none, < P, > P and <= Max, > Max, > DrainMax (streaming only)
-Progs == {"none", "one", "allbutone", "all", "postbody", "timeout"}
+Progs == {"none", "one", "allbutone", "all", "postbody", "timeout",
+          "reset", "closestream", "setbody", "hdrcl", "pasteof"}
+\* "reset"/"closestream"/"setbody": the handler drops the body stream without reading it
+\* (Request.ResetBody, CloseBodyStream, SetBody); "hdrcl": it reads nothing and rewrites the
+\* request's own Content-Length header (the framing of what is on the wire does not change);
+\* "pasteof": it reads to EOF and keeps calling Read afterwards (buffering wrappers do that).
+DropProgs == {"reset", "closestream", "setbody", "hdrcl"}
 \* handler programs: units read from RequestBodyStream() (0, 1, size-1, to EOF) or PostBody();
 \* "timeout": the handler reads nothing and answers through ctx.TimeoutError (the serve loop then
 \* continues with a fresh ctx: the unread body is still this connection's problem)
@@ -41,8 +47,9 @@ Relevant(s) ==
   /\ (s.stream => s.prog # "postbody") /\ (~s.stream => s.prog = "postbody")
   /\ (s.size = 0 => (~s.expect /\ s.framing = "fixed" /\ s.prog \in {"none", "postbody"}))
   /\ (s.size = 1 => s.prog # "allbutone")
-  /\ (s.size = 80 => (s.stream /\ ~s.expect /\ s.prog \in {"none", "one", "all", "timeout"}))
+  /\ (s.size = 80 => (s.stream /\ ~s.expect /\ s.prog \in {"none", "one", "all", "timeout"} \cup DropProgs))
   /\ (s.prog = "timeout" => (s.stream /\ ~s.expect /\ s.size > 0))
+  /\ (s.prog \in DropProgs \cup {"pasteof"} => (s.stream /\ ~s.expect /\ s.size > 0))
 
 VARIABLES
   sc,        \* the scenario
@@ -115,6 +122,7 @@ ReadBodyPrefetch ==
 
 \* units the handler program reads from the stream (counted from the start of the body)
 ProgUnits == CASE sc.prog = "none" -> 0 [] sc.prog = "timeout" -> 0 [] sc.prog = "one" -> 1
+               [] sc.prog \in DropProgs -> 0 [] sc.prog = "pasteof" -> sc.size
                [] sc.prog = "allbutone" -> sc.size - 1
                [] sc.prog = "all" -> sc.size [] sc.prog = "postbody" -> sc.size
 MaxOf(a, b) == IF a >= b THEN a ELSE b
